@@ -63,6 +63,8 @@ def floatPi : Float := 3.141592653589793
 
 /-- libm table (Python's `math`/numpy use the same C library functions) -/
 def floatTab : FunTab Float where
+  heav := heaviside
+  cmp := cmpVal
   f0 := fun c => if c = "pi" then floatPi else if c = "E" then Float.exp 1.0 else 0.0
   f1 := fun f x =>
     if f = "sin" then Float.sin x else if f = "cos" then Float.cos x
@@ -154,7 +156,6 @@ def reqOfJson {K : Type} (num : Json → Except String K) (j : Json) : Except St
 
 section
 variable {K : Type} [Add K] [Sub K] [Mul K] [Div K] [Neg K] [NatCast K] [IntCast K]
-variable [LT K] [DecidableLT K] [LE K] [DecidableLE K]
 
 /-- value of one scalar expression at one point through the model of the generated function;
 `ok` decides whether the value is reported (definedness at exact number types) -/
